@@ -3,6 +3,7 @@ package multicast
 import (
 	"crypto/sha256"
 	"math/rand"
+	"sync"
 	"time"
 
 	"github.com/ethereum/go-ethereum/common"
@@ -14,7 +15,18 @@ import (
 var (
 	cacheCtx = gctx.New()
 	cache    = gcache.New()
+	cacheMu  sync.Mutex
 )
+
+// cacheSetIfNotExist is an atomic test-and-set on the de-duplication cache.
+// gcache's SetIfNotExist is Contains followed by Set: two handlers that receive the same
+// multicast message from two neighbours at the same time could both get true, and the
+// message was then delivered to subscribers and forwarded twice.
+func cacheSetIfNotExist(key string, duration time.Duration) (bool, error) {
+	cacheMu.Lock()
+	defer cacheMu.Unlock()
+	return cache.SetIfNotExist(cacheCtx, key, 1, duration)
+}
 
 func ConvertGIDs(GIDs [][]byte) []boson.Address {
 	var gid []boson.Address
